@@ -721,7 +721,13 @@ func writeChunkedSegment(ctx context.Context, log *slog.Logger, w http.ResponseW
 			continue
 		}
 		sleepMS := chunkAvailMS - nowUpdateMS
-		time.Sleep(time.Duration(sleepMS * 1_000_000))
+		timer := time.NewTimer(time.Duration(sleepMS * 1_000_000))
+		select {
+		case <-ctx.Done(): // The client is gone
+			timer.Stop()
+			return ctx.Err()
+		case <-timer.C:
+		}
 		err = writeChunk(w, chk)
 		if err != nil {
 			return fmt.Errorf("writeChunk: %w", err)
